@@ -41,6 +41,8 @@ claimed = {
          "bounds as stated; RetryIfErrUpstream, MaxConnWaitTimeout, TLS and real sockets outside", "§0 C19"),
  "C20": ("the real redirect loop with a recording fake client: one redirect hop whose Location carries ≤2 arbitrary host-label bytes plus look-alike suffixes, ports, userinfo and scheme variants (thorough adds all two-hop chains over the fixed suffix grammar): credentials are never sent to a host that is neither a.co nor a dot-suffix subdomain, at most MaxRedirects hops are followed, 303 becomes a body-less GET/HEAD and POST becomes GET on 301/302",
          "bounds as stated; IPv6/percent-escaped hosts and Client/HostClient wrappers outside", "§0 C20"),
+ "C21": ("the real Client / HostClient scheme handling on a scripted network with a transparent model of crypto/tls: for every scheme of 4-5 arbitrary letters, a request whose scheme is https only ever travels inside TLS to host:443 with ServerName = its host and never on a raw connection, an http request never travels inside TLS, any other scheme is refused by Client without transmission, a HostClient refuses a scheme that does not match IsTLS (ErrHostClientRedirectToDifferentScheme), also across http↔https redirects",
+         "TLS itself is a model (handshake always succeeds, plaintext passed through and tagged); LBClient/PipelineClient outside", "§0 C21"),
  "C23": ("the real FS handler over a recording in-memory fs.FS: for every request target of '/' + ≤2/≤3 arbitrary bytes (through the real URI parser), Root ∈ {r, r/s, empty}, compression on/off and each built-in rewriter with counts 0..2 (arbitrary host bytes for the virtual-host rewriter), every name passed to Open is the root or lexically inside it, NUL paths open nothing (400), and '..' after rewriting opens nothing",
          "fs.FS mode only; os-level opens, symlinks and Windows paths outside; one known finding excluded (<root>.fasthttp.gz looked up next to the root)", "§0 C23"),
  "C24": ("ParseByteRange clause: for every range spec of ≤5/≤7 arbitrary bytes and every non-negative content length an accepted range satisfies 0 ≤ start ≤ end < length; the three RFC 9110 forms with ≤3/≤5 symbolic digits are accepted iff satisfiable with the right values; and the real FS handler behind the real serve loop over an in-memory fs.FS: a file of ≤2/≤3 arbitrary bytes, a Range spec of ≤3/≤4 arbitrary bytes, If-Modified-Since before/at/after the file's second, GET and HEAD: 206 with exactly the slice and a matching Content-Range, 416 when unsatisfiable, 304 when not newer to the second, else 200 with the full content; HEAD = GET's status and headers without a body",
@@ -73,7 +75,6 @@ na = {
  "C15": "not built: Shutdown needs a listener, Serve's accept loop and wall-clock polling; not brought up under the interpreter in this build",
  "C16": "not built: TimeoutHandler interleavings need preemption inside the handler goroutine; the cooperative scheduler only switches at blocking points and this harness was not written",
  "C18": "not built: the inductive step over HostClient's pool operations needs a representation invariant for conns/connsWait/wantConn that was not written in this build",
- "C21": "not built: requires the client dial path with a stubbed TLS stack under the interpreter (see C04)",
  "C22": "codec internals (compress/flate, brotli, zstd) are loops over whole buffers that a bit-blasting back end cannot decide, and the abstraction of codecs as uninterpreted functions plus the stackless queue oracle was not built",
  "C35": "not built: multipart parsing (mime/multipart) and temp-file interception were not brought up under the interpreter",
  "C36": "the oracle is net/http's own server; differential behaviour of two full HTTP servers is outside bounded symbolic execution of this code",
